@@ -64,6 +64,11 @@ FILES = {
   'ZF': '0:ppp=3:pad=9=200000:mux=2',
   'ZG': '22',                                          # half rate: ceil(N/2) on a link whose first audio page is also its last
   'ZH': '6 23',
+  # links that consist of their headers only (zero samples, no audio page at all), in the middle, doubled, first and last
+  'ZI': '6 3:noaud=1 6:s=77',
+  'ZJ': '6 3:noaud=1 3:noaud=1:s=5 0:ppp=2',
+  'ZK': '3:noaud=1 6',
+  'ZM': '2 3:noaud=1:mux=1 6 3:noaud=1:s=9',
   'Y': '6:s=-1 1:s=2147483647 2:s=-2147483648 6:s=0',     # extreme serial numbers (0xFFFFFFFF on a non-final link)
 }
 
